@@ -104,6 +104,25 @@ Theorem C20_lookup_single_criterion : forall st s k v, split_eq s = (k, v) -> is
 Proof. exact ep_lookup_single_lemma. Qed.
 Print Assumptions C20_lookup_single_criterion.
 
+(* every error answer to a registration, update, removal or registration-resource read is a 4.xx and leaves the directory
+   unchanged (no 5.00 from these handlers in any reachable state) *)
+Theorem C20_error_answers_are_4xx_and_harmless : forall st o st' e, reachable st -> is_lookup o = false -> step st o = (st', Err e) ->
+  is_4xx (Err e) = true /\ st' = st.
+Proof. exact error_answers_reachable. Qed.
+Print Assumptions C20_error_answers_are_4xx_and_harmless.
+
+(* a failing update_params has no effect at all and raises BadRequest (the validation precedes every mutation) *)
+Theorem C20_update_params_fails_cleanly : forall r remote p init t seq r' e,
+  update_params r remote p init t seq = UpFail r' e -> r' = r /\ e = BadRequest.
+Proof. exact update_params_fail_clean. Qed.
+Print Assumptions C20_update_params_fails_cleanly.
+
+(* lookups are answered 2.05, 4.06 or 4.00: nothing is raised out of the filter stages or the pagination *)
+Theorem C20_lookups_never_5xx : forall st q accept,
+  (forall e, ep_lookup st q accept = Err e -> e = BadRequest) /\ (forall e, res_lookup st q accept = Err e -> e = BadRequest).
+Proof. exact lookups_never_5xx. Qed.
+Print Assumptions C20_lookups_never_5xx.
+
 (* ---- non-vacuity and witnesses (all by computation) *)
 Definition lf (ls : list link) : body := {| b_cf := Some 40; b_payload := PLinks ls |}.
 Definition nobody : body := {| b_cf := None; b_payload := PLinks [] |}.
@@ -132,14 +151,18 @@ Proof. vm_compute. repeat split. Qed.
 Example C20_reachable_nonvacuous : reachable (run_state empty_rd demo) /\ is_4xx (Err BadRequest) = true.
 Proof. split; [exists demo; reflexivity|reflexivity]. Qed.
 
-(* Witnesses of the open findings (known_findings.d/C20.json), modelled as the code behaves:
-   (1) an update answered 5.00 (not 4.xx) has already changed the lifetime; *)
-Example C20_failed_5xx_update_changes_lifetime_refuted :
+(* writes with a valueless lt / base, and an update repeating the implicit base (fixed in /repo by f8ef49b): 4.00 with no
+   effect, resp. 2.04 making the base explicit *)
+Example C20_valueless_parameters_rejected_cleanly :
   let st := run_state empty_rd [Register h1 ["ep=a"; "lt=100"]%string (lf [])] in
-  let res := step st (UpdatePost ["1"; ""]%string h1 ["lt=555"; "base"]%string nobody) in
-  snd res = Err UnboundLocalError /\ is_4xx (snd res) = false /\ r_lt (obj st 0) = 100 /\ r_lt (obj (fst res) 0) = 555.
+  step st (UpdatePost ["1"; ""]%string h1 ["lt=555"; "base"]%string nobody) = (st, Err BadRequest) /\
+  step st (UpdatePost ["1"; ""]%string h1 ["lt"]%string nobody) = (st, Err BadRequest) /\
+  snd (step st (Register h1 ["ep=c"; "base"]%string (lf []))) = Err BadRequest /\
+  snd (step st (UpdatePost ["1"; ""]%string h1 ["base=coap://h1"]%string nobody)) = Changed /\
+  r_base_explicit (obj st 0) = false /\ r_base_explicit (obj (fst (step st (UpdatePost ["1"; ""]%string h1 ["base=coap://h1"]%string nobody))) 0) = true.
 Proof. vm_compute. repeat split. Qed.
-(* (2) with several criteria only the last one is applied (late-binding closures): ep=a&d=x lists b as well, ep=a&count=5 lists nothing *)
+(* Witness of the open finding (known_findings.d/C20.json), modelled as the code behaves: *)
+(* with several criteria only the last one is applied (late-binding closures): ep=a&d=x lists b as well, ep=a&count=5 lists nothing *)
 Example C20_multi_criteria_lookup_refuted :
   let st := run_state empty_rd [Register h1 ["ep=a"; "d=x"]%string (lf []); Register h1 ["ep=b"; "d=x"]%string (lf [])] in
   ep_lookup st ["ep=a"; "d=x"]%string None = ep_lookup st ["d=x"]%string None /\
